@@ -269,9 +269,17 @@ def offset_binding_cases():
                 joker = TheJoker(prior, rng=np.random.default_rng(42))
                 ll = np.asarray(joker.marginal_ln_likelihood(datas, smp, in_memory=True), float)
                 post = joker.rejection_sample(datas, smp, in_memory=True, n_linear_samples=48)
+                # behind a 2-process pool the helper is pickled to the workers and rebuilt there -- every epoch still with its own survey's offset column
+                import schwimmbad
+
+                with schwimmbad.MultiPool(processes=2) as pool_:
+                    ll_pickled = np.asarray(TheJoker(prior, rng=np.random.default_rng(42), pool=pool_).marginal_ln_likelihood(datas, smp, n_batches=2), float)
             except Exception as e:
                 out.append((case, f"{n_off} offsets: raised {type(e).__name__}: {str(e)[:200]}"))
                 continue
+        if not np.array_equal(ll_pickled, ll):
+            out.append((case, f"{n_off} offsets: behind a 2-process pool (the helper is pickled to the workers and rebuilt there) the marginal ln-likelihoods are {ll_pickled[:2]}, "
+                        f"the sampler's own helper {ll[:2]}: the survey indicator columns did not survive"))
         want_names = [f"dv0_{k}" for k in range(1, n_off + 1)]
         if [nm for nm in prior.par_names if nm.startswith("dv0_")] != want_names:
             out.append((case, f"{n_off} offsets: the prior lists the offsets as {[nm for nm in prior.par_names if nm.startswith('dv0_')]}, declared as {want_names}"))
